@@ -7,7 +7,7 @@ from collections import Counter, defaultdict
 
 from .guards import (Cmp, CallResult, Field, check_guard, prov, op_prov, bool_condition, marker_matches,
                      blocks_constructing)
-from .lib import (CallGraph, op_local, op_const, op_place, place_local, strip_generics, last_seg,
+from .lib import (fn_key, CallGraph, op_local, op_const, op_place, place_local, strip_generics, last_seg,
                   rvalue_operands, AnchorError)
 
 EXPLANATION = (
@@ -174,7 +174,7 @@ def inventory(F, reach, wrappers):
     for p in reach:
         f = F.fns[p]
         for kind, line in site_kinds(f, wrappers):
-            key = (strip_generics(p), kind)
+            key = (fn_key(p), kind)
             inv[key] += 1
             lines.setdefault(key, []).append((f.file, line))
     return inv, lines
@@ -242,7 +242,7 @@ def run(ctx):
             n_alloc += 1
             nm = c.name()
             ords[nm] += 1
-            key = "%s|%s#%d" % (strip_generics(p), nm, ords[nm])
+            key = "%s|%s#%d" % (fn_key(p), nm, ords[nm])
             cls, why = classify_size(F, cg, reach, f, size_op, c, 0)
             if cls is None and key in exc:
                 cls, why = "exception", exc[key]
@@ -265,7 +265,7 @@ def run(ctx):
     for c in F.callers_of("felt252_serde::vec_with_bounded_capacity"):
         n_callers += 1
         toks = op_prov(c.fn, c.args[1], 8)
-        ctx.ob("R14.3", "vec_with_bounded_capacity:caller:%s#%d" % (strip_generics(c.fn.path), n_callers),
+        ctx.ob("R14.3", "vec_with_bounded_capacity:caller:%s#%d" % (fn_key(c.fn.path), n_callers),
                "c:len" in toks and ("a:input" in toks or "n:input" in toks),
                "bound is input.len(): %s" % sorted(x for x in toks if x[:2] in ("c:", "a:"))[:5], c.where())
     ctx.floor("vec_with_bounded_capacity callers", n_callers, 4)
@@ -353,7 +353,7 @@ def run(ctx):
 
 def _unstrip(F, reach, stripped):
     for p in reach:
-        if strip_generics(p) == stripped:
+        if fn_key(p) == stripped:
             return p
     return stripped
 
